@@ -17,7 +17,8 @@ EXPLANATION = (
     'listening address, so a graceful terminate() of the server process reaches the accept loop; the SIGTERM handler signals '
     'every live child and then re-raises the default action. R4: after a forced kill the server fabricates a well-shaped '
     '(False, None) outcome on the data socket and closes it; the remote control thread closes the data socket when the child '
-    'dies, so the parent-side frontend always sees a closed connection (mapped to (False, None) by C01.R3).')
+    'dies, so the parent-side frontend always sees a closed connection (mapped to (False, None) by C01.R3).'
+    ' R3 also: the forced stage of the terminate() the server process inherits delivers SIGTERM (Process.terminate / os.kill(..., SIGTERM)), the signal whose handler reaps the children - Process.kill() would by-pass it.')
 TECHNIQUE = 'site/shape checks and CFG reachability on RemoteServer.run, the context helper and the release chain'
 
 
